@@ -125,6 +125,17 @@ def _install_text_log(m, directory):
     m._match_regex = logged
 
 
+def json_text(obj, **kw):
+    """json with readable non-ASCII text; falls back to \\u escapes when the data holds code points UTF-8 cannot
+    carry (lone surrogates are legitimate test inputs)"""
+    txt = json.dumps(obj, ensure_ascii=False, **kw)
+    try:
+        txt.encode("utf-8")
+    except UnicodeEncodeError:
+        txt = json.dumps(obj, ensure_ascii=True, **kw)
+    return txt
+
+
 def jhash(obj):
     return hashlib.md5(repr(obj).encode("utf-8", "backslashreplace")).digest()[:8]
 
@@ -438,13 +449,12 @@ def finish(ctx, acc, rule, level="exploration", exhaustive=False, assumptions=()
         h = hashlib.md5(json.dumps([bucket, case], sort_keys=True).encode()).hexdigest()[:10]
         path = os.path.join("replays", "{}-{}.json".format(ctx.pid, h))
         with open(os.path.join(VERIF, path), "w", encoding="utf-8") as fd:
-            json.dump({"property": ctx.pid, "bucket": bucket, "case": case, "detail": detail,
-                       "found": {"tier": ctx.tier, "seed": ctx.seed}}, fd, indent=1,
-                      ensure_ascii=False, sort_keys=True)
+            fd.write(json_text({"property": ctx.pid, "bucket": bucket, "case": case, "detail": detail,
+                                "found": {"tier": ctx.tier, "seed": ctx.seed}}, indent=1, sort_keys=True))
         print("VIOLATION property={} replay={}".format(ctx.pid, os.path.join(VERIF, path)))
         print("  bucket: {} ({} failing case(s))".format(bucket, acc.fail_counts[bucket]))
-        print("  case: {}".format(json.dumps(case, ensure_ascii=False, sort_keys=True)[:600]))
-        print("  detail: {}".format(detail[:600]))
+        print("  case: {}".format(json_text(case, sort_keys=True)[:600]))
+        print("  detail: {}".format(detail[:600].encode("utf-8", "backslashreplace").decode("utf-8")))
         bucket_report[bucket] = acc.fail_counts[bucket]
         nviol += 1
     cov = {
@@ -482,7 +492,7 @@ def finish(ctx, acc, rule, level="exploration", exhaustive=False, assumptions=()
     os.makedirs(os.path.join(VERIF, "evidence"), exist_ok=True)
     tmp = os.path.join(VERIF, "evidence", ctx.pid + ".json.tmp")
     with open(tmp, "w", encoding="utf-8") as fd:
-        json.dump(ev, fd, indent=1, ensure_ascii=False)
+        fd.write(json_text(ev, indent=1))
     os.replace(tmp, os.path.join(VERIF, "evidence", ctx.pid + ".json"))
     print("{} tier={} seed={} evaluations={} nontrivial={} inconclusive={} violations={} wall={}s".format(
         ctx.pid, ctx.tier, ctx.seed, acc.n, len(acc.nt), acc.inconclusive, nviol, ev["wall_s"]))
